@@ -17,6 +17,41 @@ def main(_):
     out['F13-multichar-sep'] = {'fails': r != d, 'got': repr(r)}
   except Exception as e:  # pylint: disable=broad-except
     out['F13-multichar-sep'] = {'fails': True, 'got': type(e).__name__}
+  # leaves that are Mappings but neither dict nor FrozenDict stay leaves of flatten_dict / path_aware_map
+  import types
+  from collections.abc import Mapping
+
+  class Box(Mapping):
+    def __init__(self, **kw):
+      self.d = dict(kw)
+    def __getitem__(self, k):
+      return self.d[k]
+    def __iter__(self):
+      return iter(self.d)
+    def __len__(self):
+      return len(self.d)
+  bad = []
+  for leaf in (types.MappingProxyType({'z': 1}), Box(u=2, v=3), Box()):
+    for sep in (None, '/'):
+      tree = {'params': {'w': 5, 'cfg': leaf}, 'opt': leaf}
+      try:
+        flat = TU.flatten_dict(tree, sep=sep)
+        want = {('params', 'w'), ('params', 'cfg'), ('opt',)} if sep is None else {'params/w', 'params/cfg', 'opt'}
+        if set(flat.keys()) != want or not all(v is leaf for k, v in flat.items() if k not in (('params', 'w'), 'params/w')):
+          bad.append(['flatten', type(leaf).__name__, sep, sorted(map(str, flat.keys()))])
+        back = TU.unflatten_dict(flat, sep=sep)
+        if back['opt'] is not leaf or back['params']['cfg'] is not leaf:
+          bad.append(['roundtrip', type(leaf).__name__, sep])
+      except Exception as e:  # pylint: disable=broad-except
+        bad.append(['flatten raised', type(leaf).__name__, sep, type(e).__name__])
+    visits = []
+    try:
+      TU.path_aware_map(lambda p, x: visits.append(p) or x, {'params': {'w': 5, 'cfg': leaf}, 'opt': leaf})
+      if sorted(visits) != [('opt',), ('params', 'cfg'), ('params', 'w')]:
+        bad.append(['path_aware_map', type(leaf).__name__, sorted(visits)])
+    except Exception as e:  # pylint: disable=broad-except
+      bad.append(['path_aware_map raised', type(leaf).__name__, type(e).__name__])
+  out['opaque_mapping_leaves'] = {'fails': bool(bad), 'bad': bad[:6]}
   return out
 
 
